@@ -377,7 +377,7 @@ pub fn run(ctx: &Ctx) -> Report {
     rep.sample(json!({"fixed_grid": {"ints": lat.len(), "descriptors": OFFSETS.len() * COUNTS.len()}}));
 
     // (3) tape-generated values
-    let cases = ctx.pick(20_000u32, 400_000u32) / ctx.shards as u32;
+    let cases = ctx.pick(400_000u32, 8_000_000u32) / ctx.shards as u32;
     let seed = ctx.seed;
     let lat2 = lat.clone();
     let mut rep = par_shards(ctx.shards, rep, move |shard, r| {
